@@ -2075,8 +2075,10 @@ int state_check(struct snapraid_state* state, int fix, block_off_t blockstart, b
 
 	error = 0;
 
-	/* skip degenerated cases of empty parity, or skipping all */
-	if (blockstart < blockmax) {
+	/* skip degenerated cases of skipping all */
+	/* but not the one of an array without any data block, because empty files, */
+	/* links and empty dirs are always processed, and they must be also in this case */
+	if (blockstart < blockmax || blockmax == 0) {
 		ret = state_check_process(state, fix, parity_ptr, blockstart, blockmax);
 		if (ret == -1) {
 			/* LCOV_EXCL_START */
